@@ -66,6 +66,20 @@ Definition declare (a n : nat) (init : option (list (option Z))) (st : lst) : re
             (l_ret st) (l_rf st) (l_lv st) ((a, n) :: l_len st))
   else Err EIll.
 
+(* the arrays of an EPR operation: entanglement results, qubit ids (all equal when the
+   pairs are handled sequentially: initialised by a loop at the flush), request arguments *)
+Fixpoint epr_arrays_at (i n : nat) (seq : bool) (st : lst) : lst :=
+  match n with
+  | O => st
+  | S n' =>
+      let a := l_next st in
+      let init := if seq && Nat.eqb i 1 then Some [Some 0%Z; Some 0%Z] else None in
+      epr_arrays_at (S i) n' seq
+        (mkL (l_act st) (l_peak st) (l_mused st) (l_q st) (S a) (l_decl st ++ [(a, 2, init)])
+             (l_ret st) (l_rf st) (l_lv st) ((a, 2) :: l_len st))
+  end.
+Definition epr_arrays (n : nat) (seq : bool) (st : lst) : lst := epr_arrays_at 0 n seq st.
+
 Definition bind_rf (r m : nat) (st : lst) : lst :=
   mkL (l_act st) (l_peak st) (l_mused st) (l_q st) (l_next st) (l_decl st) (l_ret st)
       ((r, m) :: adel r (l_rf st)) (l_lv st) (l_len st).
@@ -160,22 +174,22 @@ Fixpoint lower_stmt (fd : bool) (s : stmt) (st : lst) {struct s} : res (list sir
       Ok ([XUntil (R r) maxit cbody lx px (bound + 1) ccl], release r (with_lvs st4 (l_lv st)))
   | SEpr k body =>
       match k with
-      | EKeep => match body with BNil => Ok ([XI (IOpaque 0)], st) | _ => Err EIll end
+      | EKeep n => match body with BNil => Ok ([XI (IOpaque 0)], epr_arrays n false st) | _ => Err EIll end
       | ERecvCorr =>
           match body with
-          | BNil => let* st1 := transient 5 st in Ok ([XI (IOpaque 1)], st1)
+          | BNil => let* st1 := transient 5 (epr_arrays 2 false st) in Ok ([XI (IOpaque 1)], st1)
           | _ => Err EIll
           end
-      | EPost corr =>
-          let* (r1, s1) := take st in
+      | EPost corr n =>
+          let* (r1, s1) := take (epr_arrays n true st) in
           let* (r2, s2) := take s1 in
           let* (r3, s3) := take s2 in
           let* s4 := transient 4 s3 in
           let* s5 := (if corr then transient 2 s4 else Ok s4) in
           let* (cb_, s6) := lower_block fd body s5 in
           Ok (XI (IOpaque 2) :: cb_, release r3 (release r2 (release r1 s6)))
-      | ECtx =>
-          let* (r1, s1) := take st in
+      | ECtx n =>
+          let* (r1, s1) := take (epr_arrays n false st) in
           let* (cb_, s2) := lower_block fd body s1 in
           let* s3 := transient 4 s2 in
           Ok (XI (IOpaque 3) :: cb_, release r1 s3)
